@@ -345,6 +345,20 @@ def memo_findings(tree_functions) -> List[Tuple[object, ast.AST, str, Optional[b
                             work.append(local_defs[x.id])
             # parameters that influence the result: all of them, unless they are only used to build the key
             missing = [p for p in params if p not in seen_names]
+            # a parameter that enters the key only through some of its attributes (source.name) while the function reads
+            # other attributes of it (source.is_trough): equal keys do not mean equal results
+            key_exprs = [kexpr] + [local_defs[nm] for nm in seen_names if nm in local_defs and nm not in params]
+            key_ids = {id(x) for ke in key_exprs for x in ast.walk(ke)}
+            for p_ in params:
+                in_key = [x for ke in key_exprs for x in ast.walk(ke) if isinstance(x, ast.Name) and x.id == p_]
+                if not in_key:
+                    continue
+                key_attrs = {x.attr for ke in key_exprs for x in ast.walk(ke) if isinstance(x, ast.Attribute) and isinstance(x.value, ast.Name) and x.value.id == p_}
+                bare_in_key = any(not any(isinstance(par, ast.Attribute) and par.value is x for ke in key_exprs for par in ast.walk(ke)) for x in in_key)
+                body_attrs = {x.attr for x in own_walk(fdef) if isinstance(x, ast.Attribute) and isinstance(x.value, ast.Name) and x.value.id == p_ and id(x) not in key_ids}
+                if key_attrs and not bare_in_key and body_attrs - key_attrs:
+                    out.append((f, tgts[0], f"results are memoised in `{table}` under a key that identifies `{p_}` by {sorted(key_attrs)} only, while the result depends on "
+                                f"`{p_}.{sorted(body_attrs - key_attrs)[0]}`: another object with the same {sorted(key_attrs)[0]} gets the result computed for the first one", False))
             if missing:
                 out.append((f, tgts[0], f"results are memoised in `{table}` under the key `{ast.unparse(kexpr)[:50]}`, which does not contain the parameter(s) {missing}: "
                             "a call that differs only in those gets the result computed for another call", False))
@@ -358,10 +372,12 @@ def memo_rule(ctx, rule: str, module_suffixes: Sequence[str]) -> None:
     for f, node, msg, verdict in memo_findings(funcs):
         n += 1
         ctx.rep.touch(f)
+        tag = "key" if "identifies" in msg else "params" if "does not contain" in msg else "object"
+        arg = msg.split("identifies `")[1].split("`")[0] if "identifies `" in msg else ""
         if verdict is False:
-            ctx.rep.refuted(rule, f"{f.qualname}/cache", msg, where=f.where(node))
+            ctx.rep.refuted(rule, f"{f.qualname}/cache[{tag}{':' + arg if arg else ''}]", msg, where=f.where(node))
         else:
-            ctx.rep.inconclusive(rule, f"{f.qualname}/cache", msg, where=f.where(node))
+            ctx.rep.inconclusive(rule, f"{f.qualname}/cache[{tag}]", msg, where=f.where(node))
     fx = ast.parse(_MEMO_FIXTURE)
     fx_funcs = [(None, s) for s in fx.body if isinstance(s, ast.FunctionDef)]
     hits = memo_findings(fx_funcs)
@@ -440,8 +456,17 @@ def class_state_rule(ctx, rule: str, class_names: Sequence[str], what: str) -> N
                     shadow = False
                     for k in ctx.prog.mro(cls):
                         init = k.methods.get("__init__") if isinstance(k, ClassInfo) else None
-                        if init is not None and any(isinstance(x, ast.Attribute) and x.attr == root.attr and isinstance(x.ctx, ast.Store) and is_name(x.value, init.params[0]) for x in own_walk(init.node)):
-                            shadow = True
+                        if init is None:
+                            continue
+                        iv = ctx.fv(init)
+                        for nd in iv.cfg.nodes:
+                            if nd.kind == "stmt" and isinstance(nd.ast, (ast.Assign, ast.AnnAssign)) and getattr(nd.ast, "value", None) is not None:
+                                tg = nd.ast.targets[0] if isinstance(nd.ast, ast.Assign) else nd.ast.target
+                                if isinstance(tg, ast.Attribute) and tg.attr == root.attr and is_name(tg.value, init.params[0]):
+                                    # the instance attribute must exist on every path: it is bound before the constructor returns
+                                    # (and, for a mutation inside the constructor, before that mutation)
+                                    if iv.cfg.dominates(nd.id, iv.cfg.exit) and (m is not init or iv.cfg.dominates(nd.id, iv.node_of(sub))):
+                                        shadow = True
                     if not shadow:
                         hits.append((m, sub, root.attr))
         for m, sub, attr in hits:
@@ -623,3 +648,171 @@ def none_concat_rule(ctx, rule: str, shorts: Sequence[str], what: str) -> None:
                     ctx.rep.check(safe, rule, f"{f.qualname}/{stmt_key(sub)[:50]}", f"`{root.id}` cannot be None here",
                                   f"`{ast.unparse(sub)[:70]}` joins text with `{root.id}`, which is None by default: the call raises TypeError instead of {what}", where=f.where(node.ast))
     ctx.rep.holds(rule, "sites", f"{n_sites} `text + <None-able parameter>` site(s) examined")
+
+
+# ----------------------------------------------------------------------------- return / break / continue inside `finally`
+def finally_jump_rule(ctx, rule: str, shorts: Sequence[str], what: str) -> None:
+    """A `return` (or a break/continue that leaves the block) inside `finally` discards whatever exception the try body
+    raised - also the one that is supposed to reach the caller. For the listed functions (new helpers expanded into them)
+    every finally block falls through; except-handlers that end without re-raising are reported the same way when the try
+    body contains a call that is documented to refuse (`what`)."""
+    from .c02 import _finally_jumps
+
+    n = 0
+    for short in shorts:
+        cands = [g for g in ctx.prog.all_functions() if g.short == short]
+        if not cands:
+            ctx.rep.inconclusive(rule, short, "function not found")
+            continue
+        f = cands[0]
+        ctx.rep.touch(f)
+        n += 1
+        tries = [s_ for s_ in own_walk(f.node) if isinstance(s_, ast.Try)]
+        bad = False
+        for t in tries:
+            jumps = _finally_jumps(t.finalbody) if t.finalbody else []
+            if jumps:
+                bad = True
+                ctx.rep.refuted(rule, f"{f.qualname}/finally:{type(jumps[0]).__name__.lower()}",
+                                f"`{stmt_key(jumps[0])}` inside a finally block discards the exception in flight: {what}", where=f.where(jumps[0]))
+            for h in t.handlers:
+                names = []
+                if h.type is not None:
+                    names = [show(x) for x in (h.type.elts if isinstance(h.type, ast.Tuple) else [h.type])]
+                broad = h.type is None or any(x.split(".")[-1] in ("Exception", "BaseException", "AssertionError", "ValueError", "OSError") for x in names)
+                reraises = any(isinstance(x, ast.Raise) for x in ast.walk(ast.Module(body=h.body, type_ignores=[])))
+                if broad and not reraises:
+                    bad = True
+                    ctx.rep.refuted(rule, f"{f.qualname}/except[{','.join(names) or 'bare'}]", f"the handler `except {', '.join(names)}` ends without re-raising: {what}", where=f.where(h))
+        if not bad:
+            ctx.rep.holds(rule, f"{f.qualname}/exceptions-propagate", f"{len(tries)} try statement(s); no finally block jumps, no broad handler swallows", where=f.where())
+    ctx.rep.floor(rule, "functions examined for discarded exceptions", n, len(shorts))
+
+
+# ----------------------------------------------------------------------------- in-place modification of a caller's argument
+def _may_be_param(t: ast.AST, params: Sequence[str], depth: int = 0) -> Optional[str]:
+    """the parameter a resolved term can be *identical* to (no copy in between), if any"""
+    if depth > 6:
+        return None
+    if isinstance(t, ast.Name) and t.id in params:
+        return t.id
+    if is_sym(t, "phi") or is_sym(t, "norm") or is_sym(t, "alt"):
+        for a in t.args:
+            r = _may_be_param(a, params, depth + 1)
+            if r:
+                return r
+    if isinstance(t, ast.IfExp):
+        return _may_be_param(t.body, params, depth + 1) or _may_be_param(t.orelse, params, depth + 1)
+    return None
+
+
+MUTATING_METHODS = {"append", "extend", "insert", "pop", "remove", "clear", "sort", "reverse", "update", "setdefault", "popitem", "add", "discard", "resize", "fill", "put", "itemset"}
+
+
+def arg_mutation_rule(ctx, rule: str, shorts: Sequence[str], what: str, allowed: Sequence[str] = ()) -> None:
+    """The listed functions (new helpers expanded into them) do not modify the objects they were handed: no `x *= k`,
+    `del x[i:]`, `x[i] = v`, `x.append(..)` ... on a name that can still be the caller's own object (a parameter, or a local
+    that is bound to the parameter on some path without a copy). `allowed`: parameters that are documented to be modified."""
+    n = 0
+    for short in shorts:
+        cands = [g for g in ctx.prog.all_functions() if g.short == short]
+        if not cands:
+            ctx.rep.inconclusive(rule, short, "function not found")
+            continue
+        f = cands[0]
+        fv = ctx.fv(f, f.cls)
+        ctx.rep.touch(f)
+        params = [p for p in f.params if p not in allowed and not (f.cls is not None and p == f.params[0])]
+        hits = []
+        for node in fv.cfg.nodes:
+            if node.kind != "stmt":
+                continue
+            a = node.ast
+            targets = []
+            if isinstance(a, ast.AugAssign) and isinstance(a.target, ast.Name):
+                targets.append((a.target, f"`{stmt_key(a)[:40]}`"))
+            elif isinstance(a, ast.AugAssign) and isinstance(a.target, ast.Subscript):
+                targets.append((a.target.value, f"`{stmt_key(a)[:40]}`"))
+            elif isinstance(a, ast.Assign):
+                for t in a.targets:
+                    if isinstance(t, ast.Subscript):
+                        targets.append((t.value, f"`{stmt_key(a)[:40]}`"))
+            elif isinstance(a, ast.Delete):
+                for t in a.targets:
+                    if isinstance(t, ast.Subscript):
+                        targets.append((t.value, f"`{stmt_key(a)[:40]}`"))
+            elif isinstance(a, ast.Expr) and isinstance(a.value, ast.Call) and isinstance(a.value.func, ast.Attribute) and a.value.func.attr in MUTATING_METHODS:
+                targets.append((a.value.func.value, f"`{stmt_key(a)[:40]}`"))
+            for base, txt in targets:
+                while isinstance(base, ast.Subscript):
+                    base = base.value
+                if not isinstance(base, ast.Name):
+                    continue
+                n += 1
+                # `x *= k` on an immutable value (int, str, tuple) re-binds; only lists / arrays are changed in place - the
+                # aliasing question is the same either way, a re-bound number is never a parameter object that matters
+                term = fv.res.resolve(ast.Name(id=base.id, ctx=ast.Load()), node.id)
+                p = _may_be_param(term, params)
+                if p is None and base.id in params and not any(fv.cfg.nodes[d].kind != "entry" for d in fv.cfg.reaching()[node.id].get(base.id, ())):
+                    p = base.id
+                if p is not None:
+                    ann = f.param_annotation(p)
+                    scalar = ann is not None and ast.unparse(ann) in ("int", "float", "str", "bool", "Optional[str]", "Optional[int]", "Optional[float]")
+                    if not scalar:
+                        hits.append((node, txt, p))
+        for node, txt, p in hits:
+            ctx.rep.refuted(rule, f"{f.qualname}/{txt}", f"{txt} modifies an object that can be the caller's own `{p}` (no copy on that path): {what}", where=f.where(node.ast))
+        if not hits:
+            ctx.rep.holds(rule, f"{f.qualname}/arguments-untouched", "no in-place modification of an object that can be a caller's argument", where=f.where())
+    ctx.rep.holds(rule, "sites", f"{n} in-place modification site(s) examined")
+
+
+# ----------------------------------------------------------------------------- truthiness tests of values where 0 / [] / arrays are legitimate
+def truthiness_rule(ctx, rule: str, shorts: Sequence[str], params: Sequence[str], what: str) -> None:
+    """`if not x` / `x or default` on a parameter that may legitimately be 0, an empty sequence or a numpy array treats all
+    of these like "not given" (and raises "truth value of an array is ambiguous" for arrays with several elements)."""
+    n = 0
+    for short in shorts:
+        cands = [g for g in ctx.prog.all_functions() if g.short == short]
+        if not cands:
+            ctx.rep.inconclusive(rule, short, "function not found")
+            continue
+        f = cands[0]
+        fv = ctx.fv(f, f.cls)
+        ctx.rep.touch(f)
+        hits = []
+
+        def bare(e, node_id):
+            if isinstance(e, ast.Name) and e.id in params and e.id in f.params:
+                defs = fv.cfg.reaching()[node_id].get(e.id, frozenset())
+                return all(fv.cfg.nodes[d].kind == "entry" for d in defs)
+            return False
+
+        for node in fv.cfg.nodes:
+            if node.ast is None:
+                continue
+            roots = [node.ast] if node.kind in ("test", "stmt") else []
+            for r in roots:
+                for sub in own_walk(r) if node.kind == "stmt" else ast.walk(r):
+                    cands_ = []
+                    if isinstance(sub, ast.UnaryOp) and isinstance(sub.op, ast.Not):
+                        cands_.append(sub.operand)
+                    elif isinstance(sub, ast.BoolOp):
+                        cands_ += list(sub.values[:-1]) if isinstance(sub.op, ast.Or) else list(sub.values)
+                    elif isinstance(sub, ast.IfExp):
+                        cands_.append(sub.test)
+                    if node.kind == "test" and sub is r:
+                        cands_.append(sub)
+                    for c_ in cands_:
+                        if bare(c_, node.id):
+                            hits.append((node, c_.id))
+        n += 1
+        seen = set()
+        for node, p in hits:
+            if (node.id, p) in seen:
+                continue
+            seen.add((node.id, p))
+            ctx.rep.refuted(rule, f"{f.qualname}/truthiness[{p}]@{stmt_key(node.ast)[:30]}", f"`{stmt_key(node.ast)[:60]}` tests the truth value of `{p}`: {what}", where=f.where(node.ast))
+        if not hits:
+            ctx.rep.holds(rule, f"{f.qualname}/no-truthiness[{','.join(params)}]", "the parameter is only compared with None / type-tested", where=f.where())
+    ctx.rep.floor(rule, "functions examined for truthiness tests", n, len(shorts))
